@@ -16,6 +16,10 @@ ENV = dict(os.environ, GOFLAGS="-mod=mod", GOPROXY="off", GOSUMDB="off", GOTOOLC
 def one(d):
     name = os.path.basename(d.rstrip("/"))
     pid = name[:3]
+    try:
+        pid = json.load(open(os.path.join(d, "meta.json"))).get("check_property", pid)
+    except Exception:
+        pass
     wt = "/tmp/st-" + name
     subprocess.run(["git", "-C", "/repo", "worktree", "remove", "--force", wt], capture_output=True)
     r = subprocess.run(["git", "-C", "/repo", "worktree", "add", "-q", "--detach", wt, "HEAD"], capture_output=True, text=True)
